@@ -1,12 +1,322 @@
 package main
 
-// tryReplay turns a solver model into a Go test against the real code. Returns true when the
-// replayed input reproduces the failure on the compiled code.
-func tryReplay(P *Program, r *HarnessResult, o *Obligation, vd, id string, payload map[string]interface{}) bool {
-	payload["replay"] = "no executable replay could be generated for this obligation"
-	return false
+import (
+	"bytes"
+	"encoding/json"
+	"fmt"
+	"go/types"
+	"os"
+	"os/exec"
+	"path/filepath"
+	"strings"
+	"time"
+)
+
+// ---------------------------------------------------------------------------------------------
+// Replay: model -> Go test against the real code (through `go test -overlay`, nothing is written
+// into /repo).
+// ---------------------------------------------------------------------------------------------
+
+type layoutCtx struct {
+	E       *Engine
+	pkgPath string
+	imports map[string]string // alias -> path
+	alias   map[string]string // path -> alias
 }
 
+func (lc *layoutCtx) qual(p *types.Package) string {
+	if p.Path() == lc.pkgPath {
+		return ""
+	}
+	if a, ok := lc.alias[p.Path()]; ok {
+		return a
+	}
+	a := fmt.Sprintf("vr%d", len(lc.alias)+1)
+	lc.alias[p.Path()] = a
+	lc.imports[a] = p.Path()
+	return a
+}
+
+func (lc *layoutCtx) goType(t types.Type) string {
+	return types.TypeString(t, lc.qual)
+}
+
+func (lc *layoutCtx) layout(t types.Type, depth int, onPath map[string]bool) map[string]interface{} {
+	E := lc.E
+	out := map[string]interface{}{"go": lc.goType(t)}
+	ut := types.Unalias(t).Underlying()
+	if depth > 7 {
+		out["k"] = "opaque"
+		return out
+	}
+	switch tt := ut.(type) {
+	case *types.Basic:
+		info := tt.Info()
+		switch {
+		case info&types.IsBoolean != 0:
+			out["k"] = "bool"
+		case info&types.IsInteger != 0:
+			out["k"] = "int"
+			out["basic"] = tt.Name()
+			lo, hi := intRange(tt.Kind())
+			if lo != "" {
+				out["lo"], out["hi"] = lo, hi
+			}
+		case info&types.IsFloat != 0:
+			out["k"] = "float"
+		case info&types.IsString != 0:
+			out["k"] = "string"
+		default:
+			out["k"] = "opaque"
+		}
+	case *types.Pointer:
+		out["k"] = "ptr"
+		el := tt.Elem()
+		if isStruct(el) {
+			out["elem"] = lc.structRef(el, depth+1, onPath)
+		} else {
+			l := lc.layout(el, depth+1, onPath)
+			k, _ := E.cellKey(E.sortOf(el, nil))
+			l["cell"] = k
+			out["elem"] = l
+		}
+	case *types.Struct:
+		out["k"] = "structval"
+		si := E.structInfoOf(t, nil)
+		var fields []map[string]interface{}
+		if si != nil && si.sort != SUnit {
+			for i := 0; i < tt.NumFields(); i++ {
+				f := tt.Field(i)
+				fields = append(fields, map[string]interface{}{"name": f.Name(), "acc": si.fields[i].name, "l": lc.layout(f.Type(), depth+1, onPath), "settable": lc.settable(f)})
+			}
+		}
+		out["fields"] = fields
+	case *types.Slice:
+		out["k"] = "slice"
+		k, _ := E.arrKey(tt.Elem(), nil)
+		out["arr"] = k
+		out["elem"] = lc.layout(tt.Elem(), depth+1, onPath)
+	case *types.Map:
+		out["k"] = "map"
+		k, _ := E.mdomKey(tt, nil)
+		out["dom"] = k
+		out["key"] = lc.layout(tt.Key(), depth+1, onPath)
+		if E.sortOf(tt.Elem(), nil) != SUnit {
+			vk, _ := E.mvalKey(tt, nil)
+			out["val"] = vk
+			out["elem"] = lc.layout(tt.Elem(), depth+1, onPath)
+		}
+	case *types.Interface:
+		out["k"] = "iface"
+	case *types.Signature:
+		out["k"] = "func"
+	default:
+		out["k"] = "opaque"
+	}
+	return out
+}
+
+func (lc *layoutCtx) settable(f *types.Var) bool {
+	return f.Exported() || (f.Pkg() != nil && f.Pkg().Path() == lc.pkgPath)
+}
+
+func (lc *layoutCtx) structRef(t types.Type, depth int, onPath map[string]bool) map[string]interface{} {
+	E := lc.E
+	out := map[string]interface{}{"go": lc.goType(t), "k": "structref"}
+	name := types.TypeString(t, nil)
+	if onPath[name] || depth > 7 {
+		out["fields"] = []interface{}{}
+		return out
+	}
+	onPath[name] = true
+	defer delete(onPath, name)
+	si := E.structInfoOf(t, nil)
+	var fields []map[string]interface{}
+	if si != nil {
+		st := si.st
+		for i := 0; i < st.NumFields(); i++ {
+			f := st.Field(i)
+			if !lc.settable(f) {
+				continue
+			}
+			ft := f.Type()
+			if isStruct(ft) {
+				if E.structInfoOf(ft, nil).sort == SUnit {
+					continue
+				}
+				n := "sub$" + si.name + "." + f.Name()
+				if _, used := E.tb.funcs[n]; !used {
+					continue
+				}
+				fields = append(fields, map[string]interface{}{"name": f.Name(), "sub": n, "l": lc.structRef(ft, depth+1, onPath), "settable": true})
+				continue
+			}
+			k, _ := E.fieldKey(si, i)
+			// only fields the verification actually looked at
+			if _, touched := E.tb.consts[k+"@1"]; !touched {
+				continue
+			}
+			fields = append(fields, map[string]interface{}{"name": f.Name(), "key": k, "l": lc.layout(ft, depth+1, onPath), "settable": true})
+		}
+	}
+	out["fields"] = fields
+	return out
+}
+
+// tryReplay turns the solver's model into a Go test against the real code. Returns true when the
+// replayed input reproduces the failure on the compiled code.
+func tryReplay(P *Program, r *HarnessResult, o *Obligation, vd, id string, payload map[string]interface{}) bool {
+	if r.E == nil || o.Query == "" {
+		payload["replay"] = "no query kept"
+		return false
+	}
+	switch o.Kind {
+	case "safe", "post", "assert":
+	default:
+		payload["replay"] = "obligations of kind " + o.Kind + " (call-site preconditions, invariants, frames) have no executable replay"
+		return false
+	}
+	h := r.H
+	pkgPath := h.Fn.Pkg.Pkg.Path()
+	lc := &layoutCtx{E: r.E, pkgPath: pkgPath, imports: map[string]string{}, alias: map[string]string{}}
+	verifAlias := lc.qual(types.NewPackage("istio.io/istio/pkg/verif", "verif"))
+	var params []map[string]interface{}
+	for _, p := range h.Fn.Params {
+		params = append(params, map[string]interface{}{"name": p.Name(), "l": lc.layout(p.Type(), 0, map[string]bool{})})
+	}
+	if h.Fn.TypeParams() != nil && h.Fn.TypeParams().Len() > 0 {
+		payload["replay"] = "generic contract: no executable replay"
+		return false
+	}
+	lay := map[string]interface{}{"package": h.Fn.Pkg.Pkg.Name(), "imports": lc.imports, "verif": verifAlias, "harness": h.Fn.Name(), "params": params, "strlits": r.E.strLitText}
+	dir, err := os.MkdirTemp("", "govc-replay")
+	if err != nil {
+		return false
+	}
+	defer os.RemoveAll(dir)
+	lp := filepath.Join(dir, "layout.json")
+	data, _ := json.MarshalIndent(lay, "", " ")
+	os.WriteFile(lp, data, 0o644)
+	testFile := filepath.Join(dir, "replay_test.go")
+	script := filepath.Join(vd, "govc", "replay_extract.py")
+	out, err := exec.Command("/opt/veriftools/pyvenv/bin/python3", script, o.Query, lp, testFile).CombinedOutput()
+	if err != nil {
+		payload["replay"] = "model extraction failed: " + strings.TrimSpace(string(out))
+		return false
+	}
+	src, _ := os.ReadFile(testFile)
+	payload["replay_test"] = string(src)
+	outcome, raw := runReplayTest(P, pkgPath, testFile, dir)
+	payload["replay_outcome"] = outcome
+	if outcome == "" {
+		payload["replay_output"] = tail(raw, 4000)
+	}
+	// keep the test next to the replay file so that `govc replay` can re-run it
+	keep := filepath.Join(vd, "replays", id, sanitizeFile(o.Name)+"_test.go.txt")
+	os.WriteFile(keep, src, 0o644)
+	payload["replay_test_file"] = keep
+	payload["replay_package"] = pkgPath
+	label := o.Name[strings.Index(o.Name, ":")+1:]
+	if i := strings.LastIndex(label, "/"); i >= 0 && o.Kind != "safe" {
+		label = label[:i]
+	}
+	switch o.Kind {
+	case "safe":
+		return strings.HasPrefix(outcome, "runtime-panic")
+	default:
+		return outcome == "assertion-failed "+label
+	}
+}
+
+func tail(s string, n int) string {
+	if len(s) > n {
+		return s[len(s)-n:]
+	}
+	return s
+}
+
+func pkgDir(P *Program, pkgPath string) string {
+	for _, p := range P.pkgs {
+		if p.PkgPath == pkgPath && len(p.GoFiles) > 0 {
+			return filepath.Dir(p.GoFiles[0])
+		}
+	}
+	return ""
+}
+
+// runReplayTest injects the test into the package through an overlay and runs it.
+func runReplayTest(P *Program, pkgPath, testFile, dir string) (string, string) {
+	pd := ""
+	if P != nil {
+		pd = pkgDir(P, pkgPath)
+	}
+	if pd == "" {
+		pd = filepath.Join("/repo", strings.TrimPrefix(pkgPath, "istio.io/istio/"))
+	}
+	ov := map[string]interface{}{"Replace": map[string]string{filepath.Join(pd, "zz_verif_replay_test.go"): testFile}}
+	ovp := filepath.Join(dir, "overlay.json")
+	data, _ := json.Marshal(ov)
+	os.WriteFile(ovp, data, 0o644)
+	goEnv()
+	cmd := exec.Command("go", "test", "-tags", "verif", "-overlay", ovp, "-vet=off", "-count=1", "-timeout", "120s", "-run", "^TestVerifReplay$", "-v", pkgPath)
+	cmd.Dir = "/repo"
+	var buf bytes.Buffer
+	cmd.Stdout = &buf
+	cmd.Stderr = &buf
+	done := make(chan error, 1)
+	go func() { done <- cmd.Run() }()
+	select {
+	case <-done:
+	case <-time.After(15 * time.Minute):
+		if cmd.Process != nil {
+			cmd.Process.Kill()
+		}
+	}
+	raw := buf.String()
+	for _, line := range strings.Split(raw, "\n") {
+		if i := strings.Index(line, "VERIF-REPLAY: "); i >= 0 {
+			return strings.TrimSpace(line[i+len("VERIF-REPLAY: "):]), raw
+		}
+	}
+	return "", raw
+}
+
+// govc replay <replay.json>: re-run a stored replay against the current tree.
 func cmdReplay(argv []string) int {
-	return 2
+	if len(argv) < 1 {
+		usage()
+	}
+	var payload map[string]interface{}
+	if err := loadJSON(argv[0], &payload); err != nil {
+		fmt.Fprintln(os.Stderr, err)
+		return 2
+	}
+	fmt.Printf("obligation: %v\nreason: %v\n", payload["obligation"], payload["reason"])
+	tf, _ := payload["replay_test_file"].(string)
+	pkg, _ := payload["replay_package"].(string)
+	if tf == "" || pkg == "" {
+		fmt.Println("no executable replay is attached to this violation (no-failing-input-found); solver output and query are in the file")
+		return 1
+	}
+	dir, err := os.MkdirTemp("", "govc-replay")
+	if err != nil {
+		return 2
+	}
+	defer os.RemoveAll(dir)
+	src, err := os.ReadFile(tf)
+	if err != nil {
+		fmt.Fprintln(os.Stderr, err)
+		return 2
+	}
+	test := filepath.Join(dir, "replay_test.go")
+	os.WriteFile(test, src, 0o644)
+	outcome, raw := runReplayTest(nil, pkg, test, dir)
+	fmt.Println("replay outcome:", outcome)
+	if outcome == "" {
+		fmt.Println(tail(raw, 3000))
+	}
+	if strings.HasPrefix(outcome, "runtime-panic") || strings.HasPrefix(outcome, "assertion-failed") {
+		return 1
+	}
+	return 0
 }
